@@ -93,23 +93,135 @@ def eq_paths(func):
     facts = [(expr, polarity)] known on the path"""
     out = []
 
-    def walk(stmts, facts):
+    import copy as _copy
+
+    def subst(e, env):
+        if e is None or not env:
+            return e
+
+        class Sub(ast.NodeTransformer):
+            def visit_Name(self, node):
+                if isinstance(node.ctx, ast.Load) and node.id in env:
+                    return _copy.deepcopy(env[node.id])
+                return node
+        return Sub().visit(_copy.deepcopy(e))
+
+    def walk(stmts, facts, env):
         for i, st in enumerate(stmts):
             if isinstance(st, ast.Return):
-                out.append((facts, st.value))
+                val = subst(st.value, env)
+                # a value the path knows to be false is a `False` result
+                if val is not None and any(
+                        (not pol) and norm(e, 400) == norm(val, 400)
+                        for e, pol in facts):
+                    val = ast.copy_location(ast.Constant(value=False),
+                                            st.value)
+                out.append((facts, val))
                 return False
             if isinstance(st, ast.Raise):
                 return False
             if isinstance(st, ast.If):
                 rest = stmts[i + 1:]
-                t = walk(st.body + rest, facts + _conjuncts(st.test, True))
-                f = walk(st.orelse + rest,
-                         facts + _conjuncts(st.test, False))
+                test = subst(st.test, env)
+                t = walk(st.body + rest, facts + _conjuncts(test, True),
+                         dict(env))
+                f = walk(st.orelse + rest, facts + _conjuncts(test, False),
+                         dict(env))
                 return t or f
+            if isinstance(st, ast.Assign) and len(st.targets) == 1 and \
+                    isinstance(st.targets[0], ast.Name):
+                # a local bound once on this path stands for its value
+                env = dict(env)
+                env[st.targets[0].id] = subst(st.value, env)
+            else:
+                for x in ast.walk(st):
+                    if isinstance(x, ast.Name) and \
+                            isinstance(x.ctx, ast.Store) and x.id in env:
+                        env = {k: v for k, v in env.items() if k != x.id}
         out.append((facts, None))
         return True
-    walk(func.body, [])
+    walk(func.body, [], {})
     return out
+
+
+def _dict_pairs(cls, func, expr, depth=0):
+    """[(key, self-attribute)] of the dict an expression evaluates to, when
+    the dict is evidently built from constant keys: a literal, a local
+    filled by `d[k] = self.a` / `d[v] = getattr(self, v)` in a loop over
+    constants, or the result of a private helper that returns such a dict.
+    None when the dict is not evident."""
+    if depth > 2:
+        return None
+    if isinstance(expr, ast.Dict):
+        out = []
+        for k, v in zip(expr.keys, expr.values):
+            if k is None:
+                sub = _dict_pairs(cls, func, v, depth + 1)
+                if sub is None:
+                    return None
+                out += sub
+                continue
+            ks = const_str(k)
+            if ks is None:
+                return None
+            out.append((ks, _self_attr(v)))
+        return out
+    if isinstance(expr, ast.Call) and dotted(expr.func) == 'dict' and \
+            not expr.args:
+        if any(k.arg is None for k in expr.keywords):
+            return None
+        return [(k.arg, _self_attr(k.value)) for k in expr.keywords]
+    if isinstance(expr, ast.Call) and not expr.args and not expr.keywords \
+            and (dotted(expr.func) or '').startswith('self.'):
+        h = cls.find_method(dotted(expr.func)[5:])
+        if h is None:
+            return None
+        rets = [n for n in walk_no_nested(h.node)
+                if isinstance(n, ast.Return)]
+        if len(rets) != 1 or rets[0].value is None:
+            return None
+        return _dict_pairs(cls, h, rets[0].value, depth + 1)
+    if isinstance(expr, ast.Name):
+        out = None
+        for st in func.body:
+            for n in ([st] if not isinstance(st, ast.For) else st.body):
+                if not (isinstance(n, ast.Assign) and len(n.targets) == 1):
+                    if any(isinstance(x, ast.Name) and x.id == expr.id
+                           for x in ast.walk(n)) and \
+                            not isinstance(n, ast.Return):
+                        return None
+                    continue
+                t = n.targets[0]
+                if isinstance(t, ast.Name) and t.id == expr.id:
+                    out = _dict_pairs(cls, func, n.value, depth + 1)
+                    if out is None:
+                        return None
+                elif isinstance(t, ast.Subscript) and \
+                        isinstance(t.value, ast.Name) and \
+                        t.value.id == expr.id:
+                    if out is None:
+                        return None
+                    ks = const_str(t.slice)
+                    if ks is not None:
+                        out.append((ks, _self_attr(n.value)))
+                    elif isinstance(st, ast.For) and \
+                            isinstance(st.target, ast.Name) and \
+                            isinstance(t.slice, ast.Name) and \
+                            t.slice.id == st.target.id and \
+                            isinstance(st.iter, (ast.Tuple, ast.List)) and \
+                            all(const_str(e) is not None
+                                for e in st.iter.elts) and \
+                            isinstance(n.value, ast.Call) and \
+                            dotted(n.value.func) == 'getattr' and \
+                            len(n.value.args) == 2 and \
+                            norm(n.value.args[0]) == 'self' and \
+                            norm(n.value.args[1]) == st.target.id:
+                        out += [(const_str(e), const_str(e))
+                                for e in st.iter.elts]
+                    else:
+                        return None
+        return out
+    return None
 
 
 def eq_table(func):
@@ -191,6 +303,15 @@ def copy_attrs(cls, func):
                                          'self.%s but the parameter is %s'
                                          % (i, at, init_params[i])))
             for k in n.keywords:
+                if k.arg is None:
+                    for key, at in _dict_pairs(cls, func, k.value) or []:
+                        if at is not None:
+                            attrs[at] = 'keyword'
+                            if key != at:
+                                problems.append(
+                                    (n, 'keyword %s receives self.%s'
+                                     % (key, at)))
+                    continue
                 at = _self_attr(k.value)
                 if at is not None:
                     attrs[at] = 'keyword'
